@@ -159,9 +159,37 @@ def static_strict_eval(reg, tier):
     m = source.load('src/lian/util/util.py')
     fn = m.function('strict_eval')
     body = [ast.unparse(s_) for s_ in fn.body]
-    shape = (len(fn.body) == 3 and body[0].replace(' ', '') == "bytecode=compile(content,'','eval')" and isinstance(fn.body[1], ast.For) and
-             ast.unparse(fn.body[1].iter) == 'dis.get_instructions(bytecode)' and "'CALL' in insn.opname" in ast.unparse(fn.body[1].body[0].test) and
-             'error_and_quit' in ast.unparse(fn.body[1].body[0].body[0]) and body[2] == 'return eval(content, {}, {})')
+    # tolerant data-flow shape (not a literal text match): the single eval is the final `return eval(content, {}, {})`; before it error_and_quit is called under a
+    # condition that is the test `'CALL' in <x>.opname` over `dis.get_instructions(<compile(content, .., 'eval')>)` — directly in a for loop over the instructions, or
+    # through a name bound to any(<that test> for <x> in dis.get_instructions(..))
+    stmts = [s_ for s_ in fn.body if not (isinstance(s_, ast.Expr) and isinstance(s_.value, ast.Constant) and isinstance(s_.value.value, str))]
+    evals = [n for n in ast.walk(fn) if isinstance(n, ast.Call) and ast.unparse(n.func) in ('eval', 'builtins.eval', 'exec')]
+    last_ok = bool(stmts) and isinstance(stmts[-1], ast.Return) and ast.unparse(stmts[-1]).replace(' ', '') == 'returneval(content,{},{})' and len(evals) == 1
+    compiled = {t_.id for s_ in stmts[:-1] if isinstance(s_, ast.Assign) and isinstance(s_.value, ast.Call) and ast.unparse(s_.value.func) == 'compile' and
+                len(s_.value.args) == 3 and ast.unparse(s_.value.args[0]) == 'content' and ast.unparse(s_.value.args[2]) == "'eval'" for t_ in s_.targets if isinstance(t_, ast.Name)}
+
+    def scans(it):
+        return isinstance(it, ast.Call) and ast.unparse(it.func) == 'dis.get_instructions' and len(it.args) == 1 and isinstance(it.args[0], ast.Name) and it.args[0].id in compiled
+
+    def call_test(t_, var):
+        return isinstance(t_, ast.Compare) and len(t_.ops) == 1 and isinstance(t_.ops[0], ast.In) and isinstance(t_.left, ast.Constant) and t_.left.value == 'CALL' and \
+            ast.unparse(t_.comparators[0]) == f'{var}.opname'
+
+    def quits(block):
+        return any(isinstance(n, ast.Call) and ast.unparse(n.func) in ('error_and_quit', 'util.error_and_quit') for b_ in block for n in ast.walk(b_))
+    flags = set()
+    guarded = False
+    for s_ in stmts[:-1]:
+        if isinstance(s_, ast.For) and scans(s_.iter) and isinstance(s_.target, ast.Name) and not s_.orelse:
+            guarded = guarded or any(isinstance(b_, ast.If) and call_test(b_.test, s_.target.id) and quits(b_.body) for b_ in s_.body)
+        if isinstance(s_, ast.Assign) and isinstance(s_.value, ast.Call) and ast.unparse(s_.value.func) == 'any' and len(s_.value.args) == 1 and \
+                isinstance(s_.value.args[0], (ast.GeneratorExp, ast.ListComp)) and len(s_.value.args[0].generators) == 1:
+            g_ = s_.value.args[0].generators[0]
+            if scans(g_.iter) and isinstance(g_.target, ast.Name) and not g_.ifs and call_test(s_.value.args[0].elt, g_.target.id):
+                flags |= {t_.id for t_ in s_.targets if isinstance(t_, ast.Name)}
+        if isinstance(s_, ast.If) and isinstance(s_.test, ast.Name) and s_.test.id in flags and quits(s_.body):
+            guarded = True
+    shape = last_ok and bool(compiled) and guarded
     res('strict_eval-scans-the-compiled-text-for-CALL-instructions-before-it-evaluates-with-empty-globals-and-locals', shape, str(body)[:300])
     callers = []
     for dp, dn, fnames in os.walk(os.path.join(source.REPO, 'src', 'lian')):
